@@ -128,6 +128,7 @@ pub fn spec(check: &str, tier: &str) -> Option<CheckSpec> {
             let mut progs = fam::race_a(tier);
             let na = progs.len();
             progs.extend(fam::race_s(tier));
+            progs.extend(fam::cell_open_family());
             let mut js = jobs("C04", tier, progs, &cfg);
             // the same verdicts with location capture on (Builder.location)
             let mut cl = cfg.clone();
@@ -142,7 +143,7 @@ pub fn spec(check: &str, tier: &str) -> Option<CheckSpec> {
             Some(CheckSpec {
                 id: "C04",
                 level: "model_checking",
-                rule: "RACE-a: every LIT program on one flag location with two conflicting cell accesses inserted at every pair of positions (optionally guarded by the preceding load) + sentinels; RACE-s: the same insertion into small lock/channel/notify/condvar/park programs; non-trivial = the reference has a racy execution",
+                rule: "RACE-a: every LIT program on one flag location with two conflicting cell accesses inserted at every pair of positions (optionally guarded by the preceding load) + sentinels; RACE-s: the same insertion into small lock/channel/notify/condvar/park programs; CELL-open: accesses held open (get / get_mut) across a flag publication or a mutex section against direct, awaited or locked accesses of a second thread; non-trivial = the reference has a racy execution",
                 assumptions: vec!["RC11 happens-before for atomics/fences; SC machine vector clocks built from the edges the property names (spawn/join, lock hand-over, message, unpark, notify)"],
                 wall_cap: wall,
                 jobs: js,
@@ -200,6 +201,9 @@ pub fn spec(check: &str, tier: &str) -> Option<CheckSpec> {
                 b.name = "ARC+panic-in-drop".into();
                 progs.push(b);
             }
+            // failures loom detects on cells: overlapping accesses (also of one thread with itself)
+            progs.extend(fam::cell_nested_family());
+            progs.extend(fam::cell_open_family().into_iter().step_by(if tier == "quick" { 4 } else { 1 }));
             let nb = base.len();
             let mut js = jobs("C06", tier, progs, &cfg);
             for (i, lp) in fam::limit_crash_programs().into_iter().enumerate() {
@@ -589,6 +593,8 @@ pub fn arc_programs(tier: &str, with_forget: bool) -> (Vec<Program>, String) {
         v.extend(fam::arc_cell_children_only(3));
         level = "ARC: 1 child x <=3 ops + main <=2; 2 children <=5 ops (raw ops); 3 children x 1 op; cell-in-Drop variant".to_string();
     }
+    v.extend(fam::arc_reclone_family());
+    let level = level + "; ARC-reclone: count 2 -> 1 -> 2 -> 0 (remote drops, relaxed flag, the owner clones again, every release order, third thread)";
     (v, level)
 }
 
